@@ -38,6 +38,8 @@ class _IntShim:
             return builtins.int(x, base)
         if isinstance(x, SymInt):
             return x
+        if hasattr(x, "pysx_int"):
+            return x.pysx_int()
         if isinstance(x, SymBool):
             return SymInt(z3.If(x.t, 1, 0), bound=1)
         if isinstance(x, SymQ):
